@@ -205,7 +205,7 @@ func findDigestCmps(f *ssa.Function) []digestCmp {
 // c15Auth: H1
 func c15Auth(p *load.Program, r *core.Report) {
 	rule := "C15.H1 authentication-dominates-success"
-	r.Floor(rule, 4)
+	r.Floor(rule, 11)
 	for _, name := range []string{"Start", "Accept", "Join"} {
 		f := p.Func("net/handshake", "handshake", name)
 		if f == nil {
@@ -719,7 +719,7 @@ func c15Flags(p *load.Program, r *core.Report) {
 // c15Permissions: H5
 func c15Permissions(p *load.Program, r *core.Report) {
 	rule := "C15.H5 permissions-dominate-effects"
-	r.Floor(rule, 6)
+	r.Floor(rule, 8)
 	type spec struct {
 		fn, lookup, effect, flag string
 	}
